@@ -61,6 +61,69 @@ class FuncRef:
         return f'<{self.qname}>'
 
 
+def _is_noop(st):
+    """Statements that carry no data or control flow for any rule: `pass`, docstrings / bare constants, and calls of the
+    logging / print family used as statements (their arguments are formatting only)."""
+    if isinstance(st, ast.Pass):
+        return True
+    if isinstance(st, ast.Expr):
+        v = st.value
+        if isinstance(v, ast.Constant):
+            return True
+        if isinstance(v, ast.Call):
+            f = v.func
+            root = f
+            while isinstance(root, ast.Attribute):
+                root = root.value
+            if isinstance(root, ast.Name) and root.id in ('logging', 'logger', 'print') and (isinstance(f, ast.Name) or
+                    f.attr in ('debug', 'info', 'warning', 'warn', 'error', 'critical', 'exception', 'log')):
+                return True
+    return False
+
+
+def strip_noops(tree):
+    """Remove no-op statements from every statement list (one `pass` is kept where a body would become empty), so that
+    rules about the first / last / only statement of a body are insensitive to tracing lines, comments-as-strings and
+    placeholders.  Line numbers of the remaining nodes are untouched."""
+    for node in ast.walk(tree):
+        for field in ('body', 'orelse', 'finalbody'):
+            lst = getattr(node, field, None)
+            if isinstance(lst, list) and lst and isinstance(lst[0], ast.stmt):
+                kept = [st for st in lst if not _is_noop(st)]
+                if not kept and field == 'body':
+                    p = ast.Pass()
+                    ast.copy_location(p, lst[0])
+                    kept = [p]
+                if len(kept) != len(lst):
+                    for st in lst:
+                        if _is_noop(st) and isinstance(st, ast.Expr) and isinstance(st.value, ast.Call):
+                            # kept reachable for rules about expressions (attribute reads inside a tracing call
+                            # are still evaluated at run time): see walk_all()
+                            st._noop_field = field
+                            node.__dict__.setdefault('_noops', []).append(st)
+                    lst[:] = kept
+
+
+def plain_local_assignments(tree):
+    """Inside function bodies `x: T = v` becomes `x = v` (the annotation is kept on the node as `_annotation`): whether a
+    local carries a type annotation is irrelevant to every rule about what is assigned."""
+    for f in ast.walk(tree):
+        if not isinstance(f, (ast.FunctionDef, ast.AsyncFunctionDef)):
+            continue
+        for node in ast.walk(f):
+            if isinstance(node, ast.ClassDef):
+                continue
+            for field in ('body', 'orelse', 'finalbody'):
+                lst = getattr(node, field, None)
+                if isinstance(lst, list):
+                    for i, st in enumerate(lst):
+                        if isinstance(st, ast.AnnAssign) and st.value is not None and isinstance(st.target, ast.Name) and not isinstance(node, ast.ClassDef):
+                            a = ast.Assign(targets=[st.target], value=st.value)
+                            ast.copy_location(a, st)
+                            a._annotation = st.annotation
+                            lst[i] = a
+
+
 class Module:
     def __init__(self, name, path):
         self.name = name
@@ -76,9 +139,18 @@ class Module:
                 self.tree = ast.parse(self.src, filename=path)
         except SyntaxError as err:
             raise AnalysisError(f'cannot parse {path}: {err}')
+        strip_noops(self.tree)
+        plain_local_assignments(self.tree)
+        from . import alpha
+        self.renamed = alpha.normalise(self.tree, name)
         for node in ast.walk(self.tree):
             for child in ast.iter_child_nodes(node):
                 child._parent = node
+            for st in getattr(node, '_noops', []):
+                st._parent = node
+                for sub in ast.walk(st):
+                    for child in ast.iter_child_nodes(sub):
+                        child._parent = sub
         self.tree._parent = None
         self._assign = None
         self._imports = None
@@ -644,6 +716,19 @@ def walk_no_nested(node):
         if isinstance(n, (ast.FunctionDef, ast.AsyncFunctionDef, ast.ClassDef, ast.Lambda)):
             continue
         todo.extend(ast.iter_child_nodes(n))
+
+
+def walk_all(node):
+    """walk_no_nested plus the tracing statements that strip_noops() set aside (for rules about every expression that
+    is evaluated, e.g. attribute reads on typed receivers)."""
+    todo = list(ast.iter_child_nodes(node)) + list(getattr(node, '_noops', []))
+    while todo:
+        n = todo.pop()
+        yield n
+        if isinstance(n, (ast.FunctionDef, ast.AsyncFunctionDef, ast.ClassDef, ast.Lambda)):
+            continue
+        todo.extend(ast.iter_child_nodes(n))
+        todo.extend(getattr(n, '_noops', []))
 
 
 _INDEX = None
